@@ -58,7 +58,7 @@ Theorem C17_tunnel_registry_admits_below_cap :
 Proof. exact treg_admits_below. Qed.
 Print Assumptions C17_tunnel_registry_admits_below_cap.
 
-(* ---- control-connection cap (one step per operation, evict the oldest at the cap) ---- *)
+(* ---- control-connection cap (one step per operation; a new id at the cap evicts the oldest, a present id is replaced) ---- *)
 Theorem C17_control_registry_never_exceeds :
   forall (max : nat) (m : list (N * N)) (ts : list rloc) (sched : list nat),
   NoDup (keys m) /\ (0 < max -> length m <= max) ->
@@ -67,14 +67,26 @@ Theorem C17_control_registry_never_exceeds :
 Proof. exact client_registry_never_exceeds. Qed.
 Print Assumptions C17_control_registry_never_exceeds.
 
+(* a NEW ConnID at the cap: an entry with the minimal CreatedAt is evicted, the new one is in, the count does not grow *)
 Theorem C17_control_registry_evicts_oldest :
-  forall max id t m, id <> 0%N -> at_cap max (length m) = true ->
+  forall max id t m, id <> 0%N -> ~ In id (keys m) -> at_cap max (length m) = true ->
   exists old, In old m /\ (forall e, In e m -> (snd old <= snd e)%N) /\
               fst (creg_apply max (RReg id t) m) = REvicted (fst old) /\
               In id (keys (snd (creg_apply max (RReg id t) m))) /\
-              (fst old <> id -> ~ In (fst old) (keys (snd (creg_apply max (RReg id t) m)))).
+              ~ In (fst old) (keys (snd (creg_apply max (RReg id t) m))) /\
+              length (snd (creg_apply max (RReg id t) m)) <= length m.
 Proof. exact creg_evicts_oldest. Qed.
 Print Assumptions C17_control_registry_evicts_oldest.
+
+(* a ConnID that already has a record (/repo c61cb06): replacement — accepted, same key set, same count, nobody evicted,
+   at the cap or not *)
+Theorem C17_control_registry_replace_keeps_count :
+  forall max id t m, id <> 0%N -> NoDup (keys m) -> In id (keys m) ->
+  fst (creg_apply max (RReg id t) m) = ROk /\
+  length (snd (creg_apply max (RReg id t) m)) = length m /\
+  (forall k, In k (keys (snd (creg_apply max (RReg id t) m))) <-> In k (keys m)).
+Proof. exact creg_replace_keeps. Qed.
+Print Assumptions C17_control_registry_replace_keeps_count.
 
 Theorem C17_control_registry_refused_changes_nothing :
   forall max o m, fst (creg_apply max o m) = RRefused -> snd (creg_apply max o m) = m.
